@@ -162,7 +162,7 @@ def find(pid, f, repo, scratch):
         bad = case['bad'](gs) if case.get('repeat') else case['bad'](got)
         if bad:
             f['witness'] = dict(public_api_input=case['input'], request=case['op'], observed=[x[:300] for x in got[:3]], expected=case['expect'],
-                                repeated=case.get('repeat', 1))
+                                repeated=case.get('repeat', 1), family=f.get('clause'))
             f['replayed'] = True
             return
 
@@ -349,14 +349,25 @@ def replay(record, repo):
         if not binary:
             print('could not build the replay crate')
             return 2
-        out = run_requests(binary, [(w.get('request', 'compile'), inp)])
-        print('input   :', inp)
+        reqs = [(w.get('request', 'compile'),) + tuple(inp.split('\t'))] * int(w.get('repeated') or 1)
+        out = run_requests(binary, reqs)
+        print('input   :', inp.replace('\t', '   [device path:] '))
         print('expected:', w.get('expected_mode') or w.get('expected'))
-        print('observed:', (out[0][:2] if out else None))
+        print('observed:', ([x[:400] for x in out[0][:2]] if out else None))
         if w.get('expected_mode') is not None and out and out[0][0] == 'OK':
             obs = perm_constant(out[0][1])
             print('observed mode: %s' % (None if obs is None else '%04o' % obs))
             return 1 if obs is not None and '%04o' % obs != w['expected_mode'] else 0
+        # re-evaluate the oracle of the family the input came from
+        fam = list(CANNED.get(w.get('family') or '', []))
+        gen = GENERATED.get(w.get('family') or '')
+        if gen:
+            fam += list(gen())
+        for case in fam:
+            if case['input'] == inp and case['op'] == w.get('request', 'compile'):
+                bad = case['bad'](out) if case.get('repeat') else case['bad'](out[0])
+                print('still violates the clause on the current tree' if bad else 'no longer violates the clause on the current tree')
+                return 1 if bad else 0
         return 0
     finally:
         shutil.rmtree(scratch, ignore_errors=True)
